@@ -320,10 +320,10 @@ def gen_history(r, cid, nops=None, comp=None, kind=None, rotations=True, direct=
     nout = 1
     base_ts = r.randrange(10 ** 9, 2 * 10 ** 9)
     aec_keys = [gen_aec(r, P) for _ in range(3)]
-    w = dict(qr=45, aec=13, mm=12, wb=8, counters=5, setactive=5, addbp=3, dblock=4, rotate=5, edit=0)
+    w = dict(qr=45, aec=13, mm=12, wb=8, counters=5, setactive=5, addbp=3, dblock=4, rotate=5, edit=0, rotate_bad=0)
     if weights:
         w.update(weights)
-    if not rotations: w['rotate'] = 0; w['edit'] = 0
+    if not rotations: w['rotate'] = 0; w['edit'] = 0; w['rotate_bad'] = 0
     if not direct: w['dblock'] = 0
     if not addbp: w['addbp'] = 0
     kinds, wts = zip(*[(k, v) for k, v in w.items() if v > 0])
@@ -358,6 +358,13 @@ def gen_history(r, cid, nops=None, comp=None, kind=None, rotations=True, direct=
         elif k == 'dblock':
             bi = r.randrange(0, usable)
             op = {'op': 'dblock', 'bp': bi, 'items': gen_direct_items(r, P, m.bps[bi], base_ts, empties)}
+        elif k == 'rotate_bad':
+            # a rotation that fails to open its destination, then the application rotates to a good one
+            op = {'op': 'rotate_bad', 'id': 'v%d' % nout, 'export': r.random() < 0.5}
+            m.apply(op, i)
+            case['ops'].append(op)
+            op = {'op': 'rotate', 'id': 'o%d' % nout, 'export': False}
+            nout += 1
         elif k == 'edit':
             # hints edited in place through get_active_block_parameters_ref() and taken into use by a rotation:
             # flush first so that no block filtered under the old hints is pending
